@@ -20,6 +20,13 @@ Definition parse_lt (ts : list tok) : option (alt * list tok) :=
   | _ => None
   end.
 
+Definition parse_konst (ts : list tok) : option (akonst * list tok) :=
+  match ts with
+  | VAR d i :: r => Some (CVar (d, i), r)
+  | NUM n :: r => Some (CVal n, r)
+  | _ => None
+  end.
+
 Definition starts_lt (ts : list tok) : bool :=
   match ts with LTV _ _ :: _ | KW Kstatic :: _ | KW Kerased :: _ => true | _ => false end.
 
@@ -58,7 +65,11 @@ Fixpoint parse_ty (fuel : nat) (ts : list tok) {struct fuel} : option (aty * lis
           else None
       | P PLBracket :: r =>
           '(t, r1) <- parse_ty f r ;;
-          if peek PRBracket r1 then Some (TSlice t, tl r1) else None
+          if peek PRBracket r1 then Some (TSlice t, tl r1)
+          else if peek PSemi r1 then
+            '(c, r2) <- parse_konst (tl r1) ;;
+            if peek PRBracket r2 then Some (TArray t c, tl r2) else None
+          else None
       | KW Kstr :: r => Some (TStr, r)
       | P PBang :: r => Some (TNever, r)
       | _ => None
@@ -70,7 +81,10 @@ with parse_gargs (fuel : nat) (ts : list tok) {struct fuel} : option (list agarg
   | O => None
   | S f =>
       '(a, r) <- (if starts_lt ts then '(l, r) <- parse_lt ts ;; Some (GLt l, r)
-                  else '(t, r) <- parse_ty f ts ;; Some (GTy t, r)) ;;
+                  else match ts with
+                       | NUM n :: r => Some (GCVal n, r)
+                       | _ => '(t, r) <- parse_ty f ts ;; Some (GTy t, r)
+                       end) ;;
       if peek PComma r then '(l, r'') <- parse_gargs f (tl r) ;; Some (a :: l, r'')
       else if peek PGt r then Some ([a], tl r)
       else None
@@ -97,6 +111,9 @@ Fixpoint parse_binder_names (fuel D i : nat) (ts : list tok) : option (list kind
       '(k, r) <- match ts with
                  | VAR d j :: r => if (Nat.eqb d D && Nat.eqb j i)%bool then Some (KTy, r) else None
                  | LTV d j :: r => if (Nat.eqb d D && Nat.eqb j i)%bool then Some (KLt, r) else None
+                 | KW Kconst :: VAR d j :: r => if (Nat.eqb d D && Nat.eqb j i)%bool then Some (KConst, r) else None
+                 | KW Kint :: VAR d j :: r => if (Nat.eqb d D && Nat.eqb j i)%bool then Some (KInt, r) else None
+                 | KW Kfloat :: VAR d j :: r => if (Nat.eqb d D && Nat.eqb j i)%bool then Some (KFloat, r) else None
                  | _ => None
                  end ;;
       if peek PComma r then '(l, r'') <- parse_binder_names f D (S i) (tl r) ;; Some (k :: l, r'')
@@ -313,7 +330,8 @@ Definition omap {A B} (f : A -> option B) : list A -> option (list B) :=
     | x :: r => 'y <- f x ;; 'ys <- go r ;; Some (y :: ys)
     end.
 
-Definition garg_kind {V L R} (a : garg V L R) : kind := match a with GTy _ => KTy | GLt _ => KLt end.
+Definition garg_kind {V L R C} (a : garg V L R C) : kind :=
+  match a with GTy _ => KTy | GLt _ => KLt | GCVal _ | GCVar _ => KConst end.
 Fixpoint kinds_eqb (a b : list kind) : bool :=
   match a, b with
   | [], [] => true
@@ -337,8 +355,8 @@ Section Resolve.
     | AV dd ii =>
         if (in_trait && Nat.eqb dd 1 && Nat.eqb ii 0)%bool then None        (* spelled Self *)
         else match scope_kind scopes dd ii with
-             | Some KTy => Some (length scopes - dd, ii)
-             | _ => None
+             | Some kd => if is_ty_kind kd then Some (length scopes - dd, ii) else None
+             | None => None
              end
     | ASelf => if in_trait then match scopes with [] => None | _ => Some (length scopes - 1, 0) end else None
     end.
@@ -354,31 +372,59 @@ Section Resolve.
     | LErased => Some LErased
     end.
 
+  Definition r_konst (scopes : list (list kind)) (c : akonst) : option ikonst :=
+    match c with
+    | CVar (dd, ii) =>
+        match scope_kind scopes dd ii with
+        | Some KConst => Some (CVar (length scopes - dd, ii))
+        | _ => None
+        end
+    | CVal n => Some (CVal n)
+    end.
+
+  (** a bare parameter name in generic-argument position denotes a const if that is its kind *)
+  Definition bare_const (scopes : list (list kind)) (t : aty) : option ivar :=
+    match t with
+    | TVar (AV dd ii) =>
+        match scope_kind scopes dd ii with
+        | Some KConst => Some (length scopes - dd, ii)
+        | _ => None
+        end
+    | _ => None
+    end.
+
   Fixpoint r_ty (scopes : list (list kind)) (t : aty) {struct t} : option ity :=
     match t with
     | TVar v => 'v' <- r_var scopes v ;; Some (TVar v')
     | TAdt n args =>
         'h <- find_header n structs ;;
         'args' <- omap (r_garg scopes) args ;;
-        if kinds_eqb h.(h_kinds) (map garg_kind args') then Some (TAdt h.(h_id) args') else None
+        if kinds_eqb (map kclass h.(h_kinds)) (map garg_kind args') then Some (TAdt h.(h_id) args') else None
     | TScalar s => Some (TScalar s)
     | TTuple ts => 'ts' <- omap (r_ty scopes) ts ;; Some (TTuple ts')
     | TRef m l t => 'l' <- r_lt scopes l ;; 't' <- r_ty scopes t ;; Some (TRef m l' t')
     | TRaw m t => 't' <- r_ty scopes t ;; Some (TRaw m t')
     | TSlice t => 't' <- r_ty scopes t ;; Some (TSlice t')
+    | TArray t c => 't' <- r_ty scopes t ;; 'c' <- r_konst scopes c ;; Some (TArray t' c')
     | TStr => Some TStr
     | TNever => Some TNever
     end
   with r_garg (scopes : list (list kind)) (a : agarg) {struct a} : option igarg :=
     match a with
-    | GTy t => 't' <- r_ty scopes t ;; Some (GTy t')
+    | GTy t =>
+        match bare_const scopes t with
+        | Some v => Some (GCVar v)
+        | None => 't' <- r_ty scopes t ;; Some (GTy t')
+        end
     | GLt l => 'l' <- r_lt scopes l ;; Some (GLt l')
+    | GCVal n => Some (GCVal n)
+    | GCVar c => match c with end
     end.
 
   Definition r_trait_ref (scopes : list (list kind)) (tr : N) (args : list agarg) : option (nat * list igarg) :=
     'h <- find_header tr traits ;;
     'args' <- omap (r_garg scopes) args ;;
-    if kinds_eqb h.(h_kinds) (map garg_kind args') then Some (h.(h_id), args') else None.
+    if kinds_eqb (map kclass h.(h_kinds)) (map garg_kind args') then Some (h.(h_id), args') else None.
 
   Definition r_wc (scopes : list (list kind)) (w : awc) : option iwc :=
     match w with
